@@ -7,6 +7,14 @@ lemmas: `ElvProofs/C43/*.lean`.
 -/
 import ElvProofs.C43.Main
 import ElvProofs.C43.Files
+import ElvProofs.C43.QuoteC03
+import ElvProofs.C43.Line
+import ElvProofs.C43.Reach
+import ElvProofs.C43.Nest
+import ElvProofs.C43.Brace
+import ElvProofs.C43.Redir
+import ElvProofs.C43.Var
+import ElvProofs.C03
 open Go C01 C43
 open Gen.C01Chars
 
@@ -189,6 +197,53 @@ theorem C43_quoteAs_type (isPrint : Int → Bool) (stem : Bytes) (q : Int) :
       · split
         · left; rfl
         · right; left; rfl
+
+/-! ### One quoting model: `ElvModel/C43/Quote.lean` is the C03 model -/
+
+/-- **The quoting functions of this model are the functions of the C03 model.**
+`ElvModel/C43/Quote.lean` writes `quote.go` without outcomes (a structural skip
+counter for the `for s != ""` loop, Boolean folds for the `range` loop with the
+early return); `ElvModel/C03/Model.lean` keeps Go's partial operations explicit.
+For every string, style and context C03's `quoteAs` returns — no panic, enough
+fuel — exactly the pair C43's computes, and so do `QuoteAs`, `quoteDouble`,
+`quoteSingle`.  Every C03 theorem therefore speaks about the text `Complete`
+inserts, and every theorem here about the text C03 quotes. -/
+theorem C43_quote_is_C03 (isPrint : Int → Bool) (s : Bytes) (q ctx : Int) :
+    C03.quoteAs isPrint s q ctx = .ok (quoteAs isPrint s q ctx) ∧
+    C03.QuoteAs isPrint s q = .ok (QuoteAs isPrint s q) ∧
+    C03.quoteDouble isPrint s = .ok (quoteDouble isPrint s) ∧
+    C03.quoteSingle s = quoteSingle s :=
+  ⟨quoteAs_eq isPrint s q ctx, QuoteAs_eq isPrint s q, quoteDouble_eq isPrint s, (quoteSingle_eq s).symm⟩
+
+/-- non-vacuity: both models quote `fo o` as `'fo o'` -/
+example : C03.QuoteAs C43_env0.isPrint [102, 111, 32, 111] Bareword = .ok ([39, 102, 111, 32, 111, 39], SingleQuoted) ∧
+    QuoteAs C43_env0.isPrint [102, 111, 32, 111] Bareword = ([39, 102, 111, 32, 111, 39], SingleQuoted) := by
+  decide +kernel
+
+/-- **The whole-string round trip, re-derived from C03** (`C03_roundtrip`): the
+text `Complete` inserts for a candidate, parsed on its own with `ParseAs` as a
+compound in argument, map-key, braced-element or command context, is one word
+(`C03_IsWord`: no error, `Compound > Indexing > Primary`, no index, no tilde,
+quoting as reported) whose literal value (`C03.evalLit`, the compiler's literal
+path) is the candidate.  `C43_quote_roundtrip` is the in-place form of the same
+fact (any text before, any non-continuing text after), which C03's whole-string
+theorem does not give; with `pre = rest = []` the two describe the same tree. -/
+theorem C43_quote_roundtrip_C03 (isPrint : Int → Bool) (stem : Bytes) (q : Int) (ctx : Int)
+    (hctx : ctx = NormalExpr ∨ ctx = LHSExpr ∨ ctx = BracedElemExpr ∨ ctx = CmdExpr) :
+    C03_IsWord (parseAs isPrint (.compound ctx) (QuoteAs isPrint stem q).1) ctx (QuoteAs isPrint stem q).1 stem := by
+  obtain ⟨text, ty, hq, _, hw⟩ := (C03_roundtrip isPrint stem).1 q
+  rw [(C43_quote_is_C03 isPrint stem q ctx).2.1] at hq
+  have hte : QuoteAs isPrint stem q = (text, ty) := C03.QRes.ok.inj hq
+  have h1 : (QuoteAs isPrint stem q).1 = text := by rw [hte]
+  rw [h1]
+  exact hw ctx hctx
+
+/-- non-vacuity and agreement of the two forms: for `fo o` the in-place theorem
+(`pre = rest = []`) and the C03 form yield the same tree -/
+example : ∃ t, parseAs C43_env0.isPrint (.compound NormalExpr) (QuoteAs C43_env0.isPrint [102, 111, 32, 111] Bareword).1 = .ok t [] ∧
+    C03.evalLit t = some [102, 111, 32, 111] := by
+  obtain ⟨tree, _, _, hr, rest⟩ := C43_quote_roundtrip_C03 C43_env0.isPrint [102, 111, 32, 111] Bareword NormalExpr (Or.inl rfl)
+  exact ⟨tree, hr, rest.2.2.2.2.2.2.2.2.2.2.2.2.2.2.2.2.2⟩
 
 /-- **Every candidate `Complete` offers is inserted as text that is one word
 with the candidate's value** (the part of the property proved on the model;
@@ -482,3 +537,388 @@ the line). -/
 theorem C43_end_of_buffer_stops (isPrint : Int → Bool) (ctx : Int) :
     startsIndexing isPrint (peekOf ([] ++ [])) ctx = false :=
   stops_nil isPrint ctx
+
+/-! ## The full parse of the completed buffer -/
+
+/-- the text cannot continue a word: it is empty, or its first rune starts no
+primary in any expression context (a blank, a newline, `;`, `|`, `)`, `]`, `}`,
+`&`, …; `<`, `>`, `*`, `^`, `,`, `=` do continue a word in some context) -/
+def C43_Stops (isPrint : Int → Bool) (t : Bytes) : Prop :=
+  ∀ ctx, startsIndexing isPrint (peekOf t) ctx = false
+
+/-- **The full parse of a completed simple command line.**  For every
+`unicode.IsPrint`, every list of earlier words `ws` (arbitrary byte strings with
+a preferred quoting each — `lineText` writes them the way `QuoteAs` does, one
+space after each), every candidate `stem` (arbitrary bytes), every style `q` and
+every `tail` that does not continue a word: `Parse` of the WHOLE buffer
+`w₀ ␣ … ␣ wₖ₋₁ ␣ QuoteAs(stem,q) tail` returns a tree in which the word that
+starts where the quoted candidate starts (`wordValueAt`: the outermost compound
+starting there, evaluated statically) has the value `stem` and ends exactly
+where the quoted candidate ends — as the head of the command if `ws = []`, else
+as an argument.  What follows (`tail`) is arbitrary text: more arguments,
+pipelines, unbalanced brackets, invalid UTF-8; the proof computes the run of
+`Chunk → Pipeline → Form → Compound…` up to the candidate and uses C01 (`Parse`
+is total, its tree tiles the source) for the rest. -/
+theorem C43_whole_buffer_simple_command (isPrint : Int → Bool) (ws : List (Bytes × Int)) (stem : Bytes) (q : Int)
+    (tail : Bytes) (hstop : C43_Stops isPrint tail) :
+    wordValueAt isPrint (lineText isPrint ws ++ ((QuoteAs isPrint stem q).1 ++ tail)) (lineText isPrint ws).length =
+      some (stem, (lineText isPrint ws).length + (QuoteAs isPrint stem q).1.length) :=
+  line_wordValueAt isPrint ws stem q tail hstop
+
+/-- **The `Form` grammar function, in place.**  Wherever in a buffer the parser
+starts a command — at the top, after `|` or `;`, inside `( )` or `{ }` — with
+any parser state and any nesting fuel ≥ 4: if the text from there on is a
+simple command line up to the quoted candidate (`lineText ws ++ QuoteAs(stem,q)`
+followed by text that does not continue a word), the `Form` node it returns
+contains, as the outermost compound at the candidate's position, exactly the
+candidate's word.  (`C43_quote_roundtrip` is this statement one level further
+down, for the `Compound` function; what remains unproved for the general
+whole-buffer statement is only that `Parse` starts a `Form` at the start of the
+current command.) -/
+theorem C43_form_in_place (isPrint : Int → Bool) (ws : List (Bytes × Int)) (stem : Bytes) (q : Int)
+    (pre tail : Bytes) (hstop : C43_Stops isPrint tail) (fuel k : Nat) (errs : List PErr) (F : Node) (sR : St)
+    (h : parseNT (fuel + 4) .form
+        { isPrint := isPrint, src := pre ++ (lineText isPrint ws ++ ((QuoteAs isPrint stem q).1 ++ tail)) }
+        { pos := pre.length, overEOF := k, errors := errs } = .ok F sR) :
+    ∃ ctx, compoundAtN (pre.length + (lineText isPrint ws).length) F =
+      some (wordNode ctx (pre.length + (lineText isPrint ws).length) (QuoteAs isPrint stem q).1
+        (QuoteAs isPrint stem q).2 stem) :=
+  form_line_search (e := { isPrint := isPrint, src := pre ++ (lineText isPrint ws ++ ((QuoteAs isPrint stem q).1 ++ tail)) })
+    fuel stem q tail hstop ws { pos := pre.length, overEOF := k, errors := errs } sR F
+    ⟨by simp, by simp⟩ h
+
+/-- non-vacuity: `cp 'a b' ` is such a line (words `cp` and `a b`), `;` stops a word -/
+example : lineText C43_env0.isPrint [([99, 112], Bareword), ([97, 32, 98], Bareword)] =
+      [99, 112, 32, 39, 97, 32, 98, 39, 32] ∧
+    C43_Stops C43_env0.isPrint [59, 120] := by
+  refine ⟨by decide +kernel, ?_⟩
+  intro ctx
+  have : peekOf [59, 120] = 59 := by
+    rw [peekOf_cons_ascii 59 _ (by decide)]; decide
+  rw [this]
+  simp [startsIndexing, startsPrimary, allowedInBareword, allowedInVariableName]
+
+/-- … and the instance `cp 'a b' 'fo o';x`, evaluated: the word at 9 is `fo o`, ending at 15 -/
+example : wordValueAt C43_env0.isPrint
+      [99, 112, 32, 39, 97, 32, 98, 39, 32, 39, 102, 111, 32, 111, 39, 59, 120] 9 =
+    some ([102, 111, 32, 111], 15) := by decide +kernel
+
+/-- **The full parse of a completed script of simple commands.**  As
+`C43_whole_buffer_simple_command`, with any number of complete simple commands
+before the current one: earlier pipelines `ps` (each: commands joined by `| `,
+then `; `), earlier commands `fs` of the current pipeline (each followed by
+`| `), the words `ws` of the current command —
+`cd d ; cat f | sort ; grep -r x | head QuoteAs(stem,q) tail`.  `Parse` of the
+whole buffer has, as the outermost compound at the candidate's position, the
+word with value `stem`, ending where the quoted candidate ends.  (Proof:
+`ElvProofs/C43/Reach.lean` — the end states of the complete earlier commands and
+pipelines are computed (`form_done`, `pipeline_done`, `parseSeps_semi`), the
+current `Pipeline` and `Form` are children of their parents (`chunk_target`,
+`pipeline_target`), and the word is found along the spine
+`Chunk ∋ Pipeline ∋ Form ∋ word` using only the tiling of the tree that C01
+proves — the earlier siblings are never described.) -/
+theorem C43_whole_buffer_script (isPrint : Int → Bool)
+    (ps : List (List (List (Bytes × Int)) × List (Bytes × Int))) (hps : ScriptOk ps)
+    (fs : List (List (Bytes × Int))) (hfs : ∀ ws ∈ fs, ws ≠ []) (ws : List (Bytes × Int))
+    (stem : Bytes) (q : Int) (tail : Bytes) (hstop : C43_Stops isPrint tail) :
+    wordValueAt isPrint (chunkText isPrint ps ++ (pipeText isPrint fs ++
+        (lineText isPrint ws ++ ((QuoteAs isPrint stem q).1 ++ tail))))
+      ((chunkText isPrint ps).length + (pipeText isPrint fs).length + (lineText isPrint ws).length) =
+      some (stem, (chunkText isPrint ps).length + (pipeText isPrint fs).length + (lineText isPrint ws).length +
+        (QuoteAs isPrint stem q).1.length) :=
+  script_wordValueAt isPrint ps hps fs hfs ws stem q tail hstop
+
+/-- non-vacuity: `cd d ; cat f | ` is such a prefix (one earlier pipeline `cd d`, one
+earlier command `cat f` of the current pipeline), and the instance
+`cd d ; cat f | sort 'fo o'` evaluated: the word at 20 is `fo o`, ending at 26 -/
+example : ScriptOk [(([] : List (List (Bytes × Int))), [([99, 100], Bareword), ([100], Bareword)])] ∧
+    chunkText C43_env0.isPrint [([], [([99, 100], Bareword), ([100], Bareword)])] ++
+      (pipeText C43_env0.isPrint [[([99, 97, 116], Bareword), ([102], Bareword)]] ++
+        lineText C43_env0.isPrint [([115, 111, 114, 116], Bareword)]) =
+      [99, 100, 32, 100, 32, 59, 32, 99, 97, 116, 32, 102, 32, 124, 32, 115, 111, 114, 116, 32] ∧
+    wordValueAt C43_env0.isPrint
+      [99, 100, 32, 100, 32, 59, 32, 99, 97, 116, 32, 102, 32, 124, 32, 115, 111, 114, 116, 32,
+        39, 102, 111, 32, 111, 39] 20 = some ([102, 111, 32, 111], 26) := by
+  refine ⟨?_, by decide +kernel, by decide +kernel⟩
+  intro p hp
+  simp only [List.mem_singleton] at hp
+  subst hp
+  exact ⟨by simp, by intro ws h; cases h⟩
+
+/-- **The full parse of a completed buffer with nested commands.**  As
+`C43_whole_buffer_script`, with the current command nested to any depth in
+output captures and lambdas: every outer level is a script of simple commands
+followed by `(` or by `{ ` (flag `true`), the innermost level `inner` is such a
+script — `if $c { echo (cat f | head (ls QuoteAs(stem,q) tail`.  `Parse` of the whole buffer
+has, as the outermost compound at the candidate's position, the word with
+value `stem`, ending where the quoted candidate ends.  (Proof:
+`ElvProofs/C43/Nest.lean` — `Form.parse` is generalised to a target compound
+that reaches the word (`form_reach`; the target may also end up as the left
+operand of a redirection); the chain `Compound ∋ Indexing ∋ Primary( ∋ Chunk`
+(`compound_paren`, `indexing_head`, `primary_paren`; `Brace.lean`: `lbrace →
+lambda` for `{ `) makes the compound at the opener such a target; induction on
+the depth (`nest_gen`), 6 levels of nesting fuel per opener out of the 7 the
+parser has per byte.) -/
+theorem C43_whole_buffer_nested (isPrint : Int → Bool) (outer : List (Frame × Bool)) (hout : ∀ p ∈ outer, FrameOk p.1)
+    (inner : Frame) (hin : FrameOk inner) (stem : Bytes) (q : Int) (tail : Bytes) (hstop : C43_Stops isPrint tail) :
+    wordValueAt isPrint (nestText isPrint outer inner ++ ((QuoteAs isPrint stem q).1 ++ tail))
+        (nestText isPrint outer inner).length =
+      some (stem, (nestText isPrint outer inner).length + (QuoteAs isPrint stem q).1.length) :=
+  nest_wordValueAt isPrint outer hout inner hin stem q tail hstop
+
+/-- non-vacuity: `e { cat f | head (ls ` is such a prefix (outer levels `e ` + `{ ` and
+`cat f | head ` + `(`, inner level `ls `), and the instance `e { cat f | head (ls 'fo o'`
+evaluated: the word at 21 is `fo o`, ending at 27 -/
+example : nestText C43_env0.isPrint
+      [(([], [], [([101], Bareword)]), true),
+       (([], [[([99, 97, 116], Bareword), ([102], Bareword)]], [([104, 101, 97, 100], Bareword)]), false)]
+      ([], [], [([108, 115], Bareword)]) =
+      [101, 32, 123, 32, 99, 97, 116, 32, 102, 32, 124, 32, 104, 101, 97, 100, 32, 40, 108, 115, 32] ∧
+    wordValueAt C43_env0.isPrint
+      [101, 32, 123, 32, 99, 97, 116, 32, 102, 32, 124, 32, 104, 101, 97, 100, 32, 40, 108, 115, 32,
+        39, 102, 111, 32, 111, 39] 21 = some ([102, 111, 32, 111], 27) := by
+  exact ⟨by decide +kernel, by decide +kernel⟩
+
+/-- **Candidates evaluate to the candidate in the full parse** (the whole-buffer
+statement `C43_full`, proved for buffers whose text before the replaced range
+is made of simple commands: sequenced with `; `, piped with `| `, nested with
+`(` or `{ `).  When completion answers and the text before the replaced range is
+`nestText outer inner` (everything empty: the buffer's first word), then for
+every offered item that is quoted (all but variable names) and whose quoted
+stem is followed — in the completed buffer — by text that does not continue a
+word (its own suffix, then `buf[to:]`), the FULL parse of
+`buf[:from] ++ toInsert ++ buf[to:]` has at `from` a word that statically
+evaluates to the candidate and ends within the inserted text. -/
+theorem C43_candidate_whole_buffer_partial (env : C43.Env) (src : Bytes) (dot : Int) (r : Result)
+    (h : complete env src dot = .result r) (it : Item) (hit : it ∈ r.items) :
+    ∃ (raw : Raw) (q : Int), it.toShow = raw.stem ∧
+      (raw.noQuote = false →
+        it.toInsert = (QuoteAs env.isPrint raw.stem q).1 ++ raw.suffix ∧
+        ∀ (outer : List (Frame × Bool)) (inner : Frame), (∀ p ∈ outer, FrameOk p.1) → FrameOk inner →
+          src.take r.frm = nestText env.isPrint outer inner →
+          C43_Stops env.isPrint (raw.suffix ++ src.drop r.to) →
+          ∃ e, wordValueAt env.isPrint (applyItem src r it) r.frm = some (it.toShow, e) ∧
+            e = r.frm + (QuoteAs env.isPrint raw.stem q).1.length ∧ e ≤ r.frm + it.toInsert.length) := by
+  have hrange := C43_range env src dot r h
+  obtain ⟨raw, q, hshow, _, _, hq⟩ := C43_candidate_evaluates_partial env src dot r h it hit
+  refine ⟨raw, q, hshow, ?_⟩
+  intro hnq
+  obtain ⟨hins, _⟩ := hq hnq
+  refine ⟨hins, ?_⟩
+  intro outer inner hout hin hws hstop
+  have hlen : (nestText env.isPrint outer inner).length = r.frm := by
+    rw [← hws, List.length_take]; omega
+  have happ : applyItem src r it = nestText env.isPrint outer inner ++
+      ((QuoteAs env.isPrint raw.stem q).1 ++ (raw.suffix ++ src.drop r.to)) := by
+    unfold applyItem; rw [hins, hws]; simp
+  have := C43_whole_buffer_nested env.isPrint outer hout inner hin raw.stem q (raw.suffix ++ src.drop r.to) hstop
+  rw [hlen] at this
+  refine ⟨_, ?_, rfl, ?_⟩
+  · rw [happ, hshow]; exact this
+  · rw [hins]; simp
+
+/-- **The full parse of a completed redirection target.**  As
+`C43_whole_buffer_nested`, when the innermost command (at least one word) ends
+with a redirection sign — one or more of `<`, `>` — and an optional blank before
+the candidate: `sort < QuoteAs(stem,q)`, `e (ls -l >>QuoteAs(stem,q) tail`.
+`Parse` of the whole buffer has, as the outermost compound at the candidate's
+position, the word with value `stem` (the right operand of the `Redir` node the
+form gets).  (Proof: `ElvProofs/C43/Redir.lean` — `formLoop_redir` computes
+`(*Redir).parse` up to its right operand; an invalid sign such as `><` only
+adds an error, positions are unaffected.) -/
+theorem C43_whole_buffer_redir (isPrint : Int → Bool) (outer : List (Frame × Bool)) (hout : ∀ p ∈ outer, FrameOk p.1)
+    (inner : Frame) (hin : FrameOk inner) (hws : inner.2.2 ≠ []) (rs : List Nat) (hs : SignRunes rs) (sp : Bool)
+    (stem : Bytes) (q : Int) (tail : Bytes) (hstop : C43_Stops isPrint tail) :
+    wordValueAt isPrint (nestText isPrint outer inner ++ (redirText rs sp ++ ((QuoteAs isPrint stem q).1 ++ tail)))
+        ((nestText isPrint outer inner).length + (redirText rs sp).length) =
+      some (stem, (nestText isPrint outer inner).length + (redirText rs sp).length +
+        (QuoteAs isPrint stem q).1.length) :=
+  nest_redir_wordValueAt isPrint outer hout inner hin hws rs hs sp stem q tail hstop
+
+/-- non-vacuity: `sort < ` is such a prefix, and the instance `sort < 'fo o'|x` evaluated -/
+example : nestText C43_env0.isPrint [] ([], [], [([115, 111, 114, 116], Bareword)]) ++ redirText [60] true =
+      [115, 111, 114, 116, 32, 60, 32] ∧ SignRunes [60] ∧
+    wordValueAt C43_env0.isPrint [115, 111, 114, 116, 32, 60, 32, 39, 102, 111, 32, 111, 39, 124, 120] 7 =
+      some ([102, 111, 32, 111], 13) := by
+  refine ⟨by decide +kernel, ⟨by simp, fun r hr => ?_⟩, by decide +kernel⟩
+  simp only [List.mem_singleton] at hr
+  exact Or.inl hr
+
+/-- **Redirection targets evaluate to the candidate in the full parse**: the
+statement of `C43_candidate_whole_buffer_partial` when the text before the
+replaced range ends with a redirection sign (and an optional blank). -/
+theorem C43_candidate_whole_buffer_redir_partial (env : C43.Env) (src : Bytes) (dot : Int) (r : Result)
+    (h : complete env src dot = .result r) (it : Item) (hit : it ∈ r.items) :
+    ∃ (raw : Raw) (q : Int), it.toShow = raw.stem ∧
+      (raw.noQuote = false →
+        it.toInsert = (QuoteAs env.isPrint raw.stem q).1 ++ raw.suffix ∧
+        ∀ (outer : List (Frame × Bool)) (inner : Frame) (rs : List Nat) (sp : Bool), (∀ p ∈ outer, FrameOk p.1) →
+          FrameOk inner → inner.2.2 ≠ [] → SignRunes rs →
+          src.take r.frm = nestText env.isPrint outer inner ++ redirText rs sp →
+          C43_Stops env.isPrint (raw.suffix ++ src.drop r.to) →
+          ∃ e, wordValueAt env.isPrint (applyItem src r it) r.frm = some (it.toShow, e) ∧
+            e = r.frm + (QuoteAs env.isPrint raw.stem q).1.length ∧ e ≤ r.frm + it.toInsert.length) := by
+  have hrange := C43_range env src dot r h
+  obtain ⟨raw, q, hshow, _, _, hq⟩ := C43_candidate_evaluates_partial env src dot r h it hit
+  refine ⟨raw, q, hshow, ?_⟩
+  intro hnq
+  obtain ⟨hins, _⟩ := hq hnq
+  refine ⟨hins, ?_⟩
+  intro outer inner rs sp hout hin hne hs hws hstop
+  have hlen : (nestText env.isPrint outer inner).length + (redirText rs sp).length = r.frm := by
+    have := congrArg List.length hws
+    simp only [List.length_take, List.length_append] at this
+    omega
+  have happ : applyItem src r it = nestText env.isPrint outer inner ++ (redirText rs sp ++
+      ((QuoteAs env.isPrint raw.stem q).1 ++ (raw.suffix ++ src.drop r.to))) := by
+    unfold applyItem; rw [hins, hws]; simp
+  have := C43_whole_buffer_redir env.isPrint outer hout inner hin hne rs hs sp raw.stem q
+    (raw.suffix ++ src.drop r.to) hstop
+  rw [hlen] at this
+  refine ⟨_, ?_, rfl, ?_⟩
+  · rw [happ, hshow]; exact this
+  · rw [hins]; simp
+
+/-- non-vacuity: `ls fo` + Tab (range `[3,5)`, text before it `ls ` = the line of
+the one word `ls`); the candidate `fo o` is inserted as `'fo o' `, whose suffix
+is a space — and the full parse of `ls 'fo o' ` has the word `fo o` at 3 -/
+example : [108, 115, 32, 102, 111].take 3 = nestText C43_env0.isPrint [] ([], [], [([108, 115], Bareword)]) ∧
+    FrameOk ([], [], [([108, 115], Bareword)]) ∧
+    C43_Stops C43_env0.isPrint ([32] ++ ([108, 115, 32, 102, 111] : Bytes).drop 5) ∧
+    wordValueAt C43_env0.isPrint [108, 115, 32, 39, 102, 111, 32, 111, 39, 32] 3 = some ([102, 111, 32, 111], 9) := by
+  refine ⟨by decide +kernel, ⟨fun p hp => (by simp at hp), fun ws hw => (by simp at hw)⟩,
+    fun ctx => stops_space _ ctx _, by decide +kernel⟩
+
+/-- **C43, whole buffer, at the strength that is true** (stated; proved when the
+text before the range is made of simple commands, sequenced, piped and nested:
+`C43_candidate_whole_buffer_partial`).  `C43_full` fails
+in exactly the three finding classes; excluding them —
+* `new-word-glued-to-following-text`: the inserted text ends with a space, or
+  `buf[to:]` does not continue a word (`C43_Stops`);
+* `variable-quoted-candidate-after-prefix`: the completion is not a variable name;
+* `word-glued-to-preceding-text-after-syntax-error`: no parse error of the
+  buffer starts before `from` —
+the full parse of the completed buffer has at `from` a word that evaluates to
+the candidate and ends within the inserted text.
+
+Not proved in this generality.  What is missing is *prefix determinism of the
+hand-written parser at `from`*: that the run of `Parse` on the completed buffer
+arrives at `from` about to call `Compound.parse` — in the same expression
+context in which the run on the original buffer parsed the seed word (word
+case), or in the context the separator under the cursor leaves it in (new-word
+case: after a form's blanks, `|`, `;`, `(`, `[`, a redirection sign, …).  For
+the word case this is a lock-step simulation of the two runs up to `from` in
+the style of C02 (`ElvProofs/C02/Framework.lean`), with a rune class instead of
+`EOF` at the cut; for the new-word case it needs, per completer context, the
+inversion "a node of this shape in the tree ⇒ the parser was in this loop at
+`from`".  `ElvProofs/C43/Line.lean`, `Reach.lean` and `Nest.lean` do both by
+computing the run, which is possible when the text before `from` is explicit
+(simple commands, sequenced, piped, nested in output captures and lambdas,
+redirection targets); C01 supplies
+totality and the tiling used to locate the word in the tree.  The oracle of the
+check evaluates this statement with the real parser on every generated
+candidate (0 failures outside the three classes). -/
+def C43_whole_buffer_full : Prop :=
+  ∀ (env : C43.Env) (src : Bytes) (dot : Int) (r : Result),
+    (∀ x ∈ env.names, x.noQuote = false ∧ x.suffix = []) →
+    (∀ l, env.argGen = some l → ∀ x ∈ l, x.noQuote = false ∧ (x.suffix = [] ∨ x.suffix = [32])) →
+    0 ≤ dot → dot ≤ src.length →
+    complete env src dot = .result r → r.name ≠ "variable" →
+    (∀ tree errs, parse env.isPrint src = .ok tree errs → ∀ x ∈ errs, r.frm ≤ x.frm) →
+    ∀ it ∈ r.items, (it.toInsert.getLast? = some 32 ∨ C43_Stops env.isPrint (src.drop r.to)) →
+      ∃ e, wordValueAt env.isPrint (applyItem src r it) r.frm = some (it.toShow, e) ∧
+        e ≤ r.frm + it.toInsert.length
+
+/-- the witness of `C43_counterexample` (`;x`, cursor 1, `echo`) is outside
+`C43_whole_buffer_full`: the insertion does not end with a space and `x`
+continues a word -/
+example : ¬ (([101, 99, 104, 111] : Bytes).getLast? = some 32 ∨ C43_Stops C43_asciiPrint (([59, 120] : Bytes).drop 1)) := by
+  intro h
+  rcases h with h | h
+  · revert h; decide
+  · have := h NormalExpr
+    revert this
+    decide +kernel
+
+/-! ## Variable-name candidates -/
+
+/-- **A completed variable use, in place.**  Variable names are inserted
+verbatim (`noQuoteItem`) after `$`, the sigil and the namespace.  For a plain
+name — valid UTF-8, first rune a variable-name rune or `@`, all other runes
+variable-name runes (`PlainVarName`) — the text `$name`, after any text `pre`
+and before any `rest` that does not start with a variable-name rune, is read
+by the `Primary` grammar function, in every expression context, as exactly one
+`Variable` primary whose `Value` is `name`, spanning exactly `$name`, with no
+error.  (The excluded names are the finding
+`variable-quoted-candidate-after-prefix`: a name that needs quotes cannot follow
+a sigil or namespace.) -/
+theorem C43_variable_roundtrip (isPrint : Int → Bool) (name : Bytes) (ctx : Int) (pre rest : Bytes)
+    (k : Nat) (errs : List PErr) (hname : PlainVarName isPrint name)
+    (hstop : allowedInVariableName isPrint (peekOf rest) = false) :
+    parsePrimary isPrint (pre ++ (36 :: name) ++ rest) ctx { pos := pre.length, overEOF := k, errors := errs } =
+      .ok (varNode ctx pre.length name) { pos := pre.length + (1 + name.length), overEOF := k, errors := errs } :=
+  variable_rt isPrint name ctx pre rest k errs hname hstop
+
+/-- non-vacuity: `e:HOME` is a plain variable name (namespace and all), `)` ends it -/
+example : PlainVarName C43_asciiPrint [101, 58, 72, 79, 77, 69] ∧
+    allowedInVariableName C43_asciiPrint (peekOf [41]) = false := by
+  refine ⟨⟨by decide +kernel, 101, [58, 72, 79, 77, 69], by decide +kernel, Or.inl (by decide +kernel), ?_⟩, by decide +kernel⟩
+  intro r hr
+  simp only [List.mem_cons, List.mem_nil_iff, or_false] at hr
+  rcases hr with rfl | rfl | rfl | rfl | rfl <;> decide +kernel
+
+/-- **A variable-name candidate completes the variable use it was offered in.**
+When completion answers with the range of case (c) of `C43_range_is_seed_word`
+(a variable `v` written bare: `buf[v.from:] = "$" ++ sigil ++ ns ++ buf[from:]`),
+every item that is inserted verbatim has `toInsert = toShow = stem`, and in the
+completed buffer the `Primary` function at `v.from` — any context — reads
+`$ sigil ns stem` as one `Variable` primary named `sigil ++ ns ++ stem` that ends
+exactly where the insertion ends, provided that name is plain and `buf[to:]`
+does not start with a variable-name rune. -/
+theorem C43_variable_candidate_partial (env : C43.Env) (src : Bytes) (dot : Int) (r : Result)
+    (h : complete env src dot = .result r) (v : Node)
+    (hv : src.drop v.frm = 36 :: (splitSigil v.value).1 ++ (splitIncompleteQNameNs (splitSigil v.value).2).1 ++
+      src.drop r.frm)
+    (it : Item) (hit : it ∈ r.items) :
+    ∃ raw : Raw, it.toShow = raw.stem ∧
+      (raw.noQuote = true → it.toInsert = raw.stem ∧
+        ∀ (ctx : Int) (k : Nat) (errs : List PErr),
+          PlainVarName env.isPrint
+            ((splitSigil v.value).1 ++ (splitIncompleteQNameNs (splitSigil v.value).2).1 ++ raw.stem) →
+          allowedInVariableName env.isPrint (peekOf (src.drop r.to)) = false →
+          parsePrimary env.isPrint (applyItem src r it) ctx { pos := v.frm, overEOF := k, errors := errs } =
+            .ok (varNode ctx v.frm
+                ((splitSigil v.value).1 ++ (splitIncompleteQNameNs (splitSigil v.value).2).1 ++ raw.stem))
+              { pos := r.frm + it.toInsert.length, overEOF := k, errors := errs }) := by
+  have hrange := C43_range env src dot r h
+  obtain ⟨raw, q, hshow, _, hnq, _⟩ := C43_candidate_evaluates_partial env src dot r h it hit
+  refine ⟨raw, hshow, ?_⟩
+  intro hn
+  have hins := hnq hn
+  refine ⟨hins, ?_⟩
+  intro ctx k errs hname hstop
+  generalize hsg : (splitSigil v.value).1 = sg at *
+  generalize hns : (splitIncompleteQNameNs (splitSigil v.value).2).1 = ns at *
+  have hvle : v.frm ≤ src.length := by
+    rcases Nat.le_total v.frm src.length with h1 | h1
+    · exact h1
+    · rw [List.drop_eq_nil_of_le h1] at hv; simp at hv
+  have hlen := congrArg List.length hv
+  simp only [List.length_drop, List.length_cons, List.length_append] at hlen
+  have hfrm : r.frm = v.frm + (1 + sg.length + ns.length) := by omega
+  have htake : src.take r.frm = src.take v.frm ++ (36 :: sg ++ ns) := by
+    have hsplit : src = src.take v.frm ++ ((36 :: sg ++ ns) ++ src.drop r.frm) := by
+      conv => lhs; rw [← List.take_append_drop v.frm src, hv]
+    conv => lhs; rw [hsplit, ← List.append_assoc]
+    rw [List.take_left']
+    simp only [List.length_append, List.length_take, List.length_cons]
+    omega
+  have happ : applyItem src r it = src.take v.frm ++ (36 :: (sg ++ ns ++ raw.stem)) ++ src.drop r.to := by
+    unfold applyItem; rw [hins, htake]; simp
+  have hpl : (src.take v.frm).length = v.frm := by rw [List.length_take]; omega
+  have := C43_variable_roundtrip env.isPrint (sg ++ ns ++ raw.stem) ctx (src.take v.frm) (src.drop r.to) k errs hname hstop
+  rw [hpl] at this
+  rw [happ, this, hins, hfrm]
+  simp only [List.length_append]
+  congr 2
+  omega
